@@ -269,14 +269,14 @@ PROPS["C09"]["build_expect"] = gens.build_expect_c09
 # ---- translated kernels (tools/rs2coq.py -> coq/Gen/Code<G>.v, proved equal to the model in coq/Gen/Tie<G>.v):
 # which groups each property's check regenerates and re-proves
 TIE_GROUPS = {
-    "C01": ["Mask", "Swar"], "C02": ["Mask", "Swar"], "C06": ["Mask", "Swar"], "C07": ["Mask", "Swar"],
+    "C01": ["Mask", "Swar"], "C02": ["Mask", "Swar"], "C06": ["Mask", "Swar", "IterHint"], "C07": ["Mask", "Swar"],
     "C09": ["Mask", "Swar"], "C05": ["Mask"],
     "C03": ["RabinKarp", "ByteSet", "Prefilter", "Searcher", "Mask"],
     "C04": ["RabinKarp", "ByteSet", "Mask"],
-    "C08": ["Prefilter", "Searcher"], "C10": ["Prefilter", "Searcher"], "C16": ["Prefilter"],
+    "C08": ["Prefilter", "Searcher", "IterHint"], "C10": ["Prefilter", "Searcher"], "C16": ["Prefilter"],
     "C11": ["Mask", "Pair"], "C12": ["RabinKarp", "ByteSet", "Mask"],
     "C13": ["Searcher", "RabinKarp", "Prefilter"],
-    "C14": ["Prefilter", "RabinKarp", "Swar", "ByteSet", "Mask", "Pair", "Searcher"],
+    "C14": ["Prefilter", "RabinKarp", "Swar", "ByteSet", "Mask", "Pair", "Searcher", "IterHint"],
     "C19": ["Pair"],
 }
 for _pid, _g in TIE_GROUPS.items():
